@@ -107,6 +107,9 @@ func relativeShape(r *rand.Rand, a iset, key uint64) iset {
 	if a.empty() {
 		return chunkShape(r, key)
 	}
+	if r.Intn(8) == 0 {
+		return stackedShape(r, a, key)
+	}
 	base := key << 16
 	chunk := iset{span{base, base + 65535}}
 	inChunk := a.intersect(chunk)
@@ -186,6 +189,50 @@ func relativeShape(r *rand.Rand, a iset, key uint64) iset {
 		bg = outside
 	}
 	return bg.union(sliver)
+}
+
+// stackedShape returns a set that lies entirely on one side of a inside the chunk and touches it: its minimum is a's
+// maximum (one shared value), the value after it (adjacent, disjoint) or two after it - or mirrored below a's minimum.
+// Scattered values (array storage unless many), the count often chosen so that |a| + |b| sits on the 4096 threshold.
+// Union / intersection fast paths that compare the operands' value ranges ("disjoint, so just concatenate") are decided
+// by that one touching value.
+func stackedShape(r *rand.Rand, a iset, key uint64) iset {
+	base := key << 16
+	inChunk := a.intersect(iset{span{base, base + 65535}})
+	if inChunk.empty() {
+		return chunkShape(r, key)
+	}
+	_, na := inChunk.count128()
+	n := uint64(1 + r.Intn(3000))
+	if na < 4090 && r.Intn(2) == 0 {
+		n = 4096 - na + uint64(r.Intn(3))
+	}
+	amax, amin := inChunk.max(), inChunk.min()
+	up := base+65535-amax > amin-base
+	if base+65535-amax > 2*n && amin-base > 2*n {
+		up = r.Intn(2) == 0
+	}
+	var sps []span
+	if up {
+		v := amax + uint64(r.Intn(3))
+		for i := uint64(0); i < n && v <= base+65535; i++ {
+			sps = append(sps, span{v, v})
+			room := (base + 65535 - v) / (n - i)
+			v += 1 + uint64(r.Int63n(int64(minU64(room, 12))+1))
+		}
+	} else {
+		v := amin - minU64(amin-base, uint64(r.Intn(3)))
+		for i := uint64(0); i < n; i++ {
+			sps = append(sps, span{v, v})
+			room := (v - base) / (n - i)
+			d := 1 + uint64(r.Int63n(int64(minU64(room, 12))+1))
+			if v < base+d {
+				break
+			}
+			v -= d
+		}
+	}
+	return normalize(sps)
 }
 
 func maxU64(a, b uint64) uint64 {
